@@ -69,11 +69,15 @@ class RsHost:
         line, _, self._buf = self._buf.partition(b"\n")
         return line
 
-    def call(self, ops: List[list]) -> List[Any]:
+    def call_keep(self, ops: List[list]) -> List[Any]:
+        """Follow-up request of the same scenario: slots created by earlier requests survive."""
+        return self.call(ops, reset=False)
+
+    def call(self, ops: List[list], reset: bool = True) -> List[Any]:
         """Send one request (prefixed by a reset so slots never leak between scenarios)."""
         if self.proc is None or self.proc.poll() is not None:
             self._start()
-        payload = json.dumps({"ops": [["reset"]] + ops}, separators=(",", ":")).encode() + b"\n"
+        payload = json.dumps({"ops": ([["reset"]] if reset else []) + ops}, separators=(",", ":")).encode() + b"\n"
         try:
             self.proc.stdin.write(payload)
             self.proc.stdin.flush()
